@@ -227,8 +227,9 @@ def finish(prop, pdef, tier, seed, reg, kentries, kres, ventries, vres, wall, sc
         "wall_s": round(wall, 1),
         "violations": len(unexplained),
     }
-    os.makedirs(os.path.join(VERIF, "evidence"), exist_ok=True)
-    with open(os.path.join(VERIF, "evidence", f"{prop}.json"), "w") as fh:
+    evdir = os.environ.get("VERIF_EVIDENCE_DIR") or os.path.join(VERIF, "evidence")
+    os.makedirs(evdir, exist_ok=True)
+    with open(os.path.join(evdir, f"{prop}.json"), "w") as fh:
         json.dump(ev, fh, indent=1)
     nd = sum(o["status"] == "discharged" for o in obligations)
     log(f"== {prop}: {nd}/{len(obligations)} obligations discharged ({len(proved)} proved-kind, {len(bounded)} bounded), {len(failed)} failed, {len(undecided)} undecided, {len(known_lines)} known findings; {wall:.0f}s; exit {rc}")
